@@ -1613,6 +1613,17 @@ class IndexHierarchy(IndexBase):
             if levels.targets is None: # fall back to 1D index
                 return levels.index.rename(name)
 
+            # offsets counted the leaves that were removed: recount them from the remaining labels
+            def reset_offsets(level: IndexLevel) -> int:
+                if level.targets is None:
+                    return level.index.__len__()
+                size = 0
+                for target in level.targets:
+                    target.offset = size
+                    size += reset_offsets(target)
+                return size
+            reset_offsets(levels)
+
             # if we have TypeBlocks and levels is the same length
             if not self._recache and levels.__len__() == self.__len__():
                 blocks = self._blocks.iloc[NULL_SLICE, :count]
